@@ -27,14 +27,14 @@ contract('TemplatedType.__init__',
          params={'typename': 'ref:Typename', 'template_params': 'list[%s]' % TYPE_ANY, 'is_const': 'str', 'is_shared_ptr': 'str',
                  'is_ptr': 'str', 'is_ref': 'str'},
          requires=['isinstance(typename.name, str)'],
-         modifies=fields('typename', 'template_params', 'is_const', 'is_shared_ptr', 'is_ptr', 'is_ref') + ['alloc'],
+         modifies=fields('typename', 'template_params', 'is_const', 'is_shared_ptr', 'is_ptr', 'is_ref', 'is_basic') + ['alloc'],
          ensures=['self.typename.name == old(typename.name)',
                   "implies(old(len(typename.namespaces) > 0 and typename.namespaces[0] == ''), self.typename.namespaces == old(typename.namespaces[1:]))",
                   "implies(not old(len(typename.namespaces) > 0 and typename.namespaces[0] == ''), self.typename.namespaces == old(typename.namespaces))",
                   'len(self.typename.instantiations) == len(template_params)',
                   'forall(0, len(template_params), lambda j: self.typename.instantiations[j] == old(template_params[j].typename))',
                   'self.is_const == is_const', 'self.is_shared_ptr == is_shared_ptr',
-                  'self.is_ptr == is_ptr', 'self.is_ref == is_ref',
+                  'self.is_ptr == is_ptr', 'self.is_ref == is_ref', 'self.is_basic == False',
                   'len(self.template_params) == len(template_params)',
                   'forall(0, len(template_params), lambda j: self.template_params[j] == template_params[j])'], **INIT)
 contract('Argument.__init__', params={'ctype': TYPE_ANY + '|list[%s]' % TYPE_ANY, 'name': 'nestr', 'default': 'none|str'},
